@@ -125,7 +125,7 @@ theorem invP_add {s s' : Sh} {l r : List Th} {t t' : Th} (h : InvP s (l ++ t :: 
     (hpk : s'.parked = (add s due id kind tag).1.parked) (hh : s'.heap = (add s due id kind tag).1.heap)
     (hsd : s'.isShutdown = (add s due id kind tag).1.isShutdown)
     (hf : s'.flags = (add s due id kind tag).1.flags) : InvP s' (l ++ t' :: r) := by
-  rcases add_cases s due id kind tag with ⟨_, h1, _⟩ | ⟨hns, _, h2, new, h1, _⟩
+  rcases add_cases s due id kind tag with ⟨_, h1, _⟩ | ⟨hns, _, h2, new, cl, h1, _⟩
   · rw [h1] at hw hpk hh hsd hf
     exact invP_keep h ha hp hx hs hw hpk (by rw [hh]; exact Nat.le_refl _) hsd (by rw [hf])
   · rw [h1] at hw hpk hh hsd hf
@@ -137,7 +137,8 @@ theorem invP_add {s s' : Sh} {l r : List Th} {t t' : Th} (h : InvP s (l ++ t :: 
     simp only [tsum_isWk] at pw
     have hsw : (s'.wake = s.wake + 1 ∧ s.wake < s.parked) ∨ (s'.wake = s.wake ∧ ¬ s.wake < s.parked) := by
       rw [hw]
-      exact signal_wake_cases ({ s with next := s.next + 1, heap := h2, log := new ++ Ev.sched s.next id due :: s.log })
+      exact signal_wake_cases
+        ({ s with next := s.next + 1, heap := h2, closed := cl, log := new ++ Ev.sched s.next id due :: s.log })
     refine invP_gen h' (by simp [isWk, ha, hp, hx]) ?_ (by omega) ?_ ?_ ?_ ?_
     · rcases hsw with ⟨e1, e2⟩ | ⟨e1, e2⟩ <;> omega
     · intro _
